@@ -1,6 +1,6 @@
 (* Recover/Proofs.v — proofs about the C06 path model (coq/Recover/Path.v). *)
 From Coq Require Import NArith List Bool Lia.
-From ZV Require Import Recover.Consts Recover.Path.
+From ZV Require Import Recover.Consts Recover.Path Recover.ProofsWal.
 Import ListNotations.
 Open Scope N_scope.
 
@@ -9,3 +9,70 @@ Lemma crash_enabled : forall c s, exists s', step c s (EvCrash 0 0) = Ok s'.
 Proof.
   intros c s. unfold step, image. simpl. eexists. reflexivity.
 Qed.
+
+(* ---------- traces of a single-replica group (used in examples and refutations) ---------- *)
+
+Definition cfg2 (opt : bool) : config := mkConfig 2 2 opt.
+
+Definition rdy (i : N) (tv : bool) : ready := mkReady 1 i i true tv i 1 i i.
+
+(* one client write at index i (fixed code: the Ready's entry is committed in the same Ready, so it is saved
+   before it is published); sn = np.snapi *)
+Definition ev_rd (i : N) (tv : bool) (cut : bool) : list event :=
+  [EvRdBegin (rdy i tv); EvRdSaveBefore] ++ (if cut then [EvCutBefore (i + 1); EvCutAfter (i + 1)] else [])
+  ++ [EvRdSaveAfter; EvRdPublish 1 i; EvRdAppendAfter; EvRdAdvance].
+Definition ev_ap (i sn : N) : list event := [EvApBefore (i - 1) 1; EvApAfter i; EvApRaftDone i; EvApTriggerBefore i sn].
+Definition ev_write (i sn : N) (tv cut : bool) : list event := ev_rd i tv cut ++ ev_ap i sn ++ [EvApTriggerAfter i sn].
+(* the same with a snapshot triggered at i: checkpoint taken, goroutine started *)
+Definition ev_write_snap (i sn : N) (tv cut : bool) : list event :=
+  ev_rd i tv cut ++ ev_ap i sn ++ [EvCkSaveBefore; EvCkSaveAfter; EvCkPurgeBefore; EvCkPurgeAfter; EvSnStarted i; EvApTriggerAfter i i].
+Definition ev_sn_to_file (i : N) : list event := [EvSnCkDone i; EvSnCreated i; EvSnFile i].
+Definition ev_sn_rest (i : N) : list event := [EvSnMarked i; EvSnSynced i; EvSnReleased i; EvSnUpdated i; EvSnCompacted i].
+
+(* W1: two acknowledged writes; the second is flushed but, with optimizedFsync, not fdatasync'ed *)
+Definition trace_w1 : list event := ev_write 1 0 true false ++ ev_write 2 0 false false.
+
+(* with optimizedFsync a power loss (unsynced records lost) loses an acknowledged write ... *)
+Lemma powerloss_refuted :
+  exists evs s j l, run (cfg2 true) init_state evs = Ok s /\ (j <= unsynced s)%nat
+    /\ recover_state_powerloss s j = Ok l /\ acked s = 2 /\ l = [1].
+Proof. exists trace_w1. eexists. exists 2%nat. eexists. split; [vm_compute; reflexivity|]. split; [vm_compute; lia|]. split; [vm_compute; reflexivity|]. split; reflexivity. Qed.
+
+(* ... a process death does not, and without optimizedFsync neither does a power loss *)
+Lemma powerloss_example_ok :
+  exists s, run (cfg2 true) init_state trace_w1 = Ok s /\ recover_state s 0 0 = Ok [1; 2]
+  /\ exists s', run (cfg2 false) init_state trace_w1 = Ok s' /\ unsynced s' = 0%nat.
+Proof. eexists. split; [vm_compute; reflexivity|]. split; [vm_compute; reflexivity|]. eexists. split; vm_compute; reflexivity. Qed.
+
+(* a crossing of several snapshot / cut / release / purge boundaries, with a crash at the end and a complete restart *)
+Definition trace_cycle : list event :=
+  ev_write 1 0 true false ++ ev_write 2 0 false true ++ ev_write 3 0 false false ++ ev_write 4 0 false true
+  ++ ev_write_snap 5 0 false false ++ ev_sn_to_file 5 ++ ev_sn_rest 5
+  ++ [EvPgBefore 3; EvPgAfter 3]
+  ++ ev_write 6 5 false false
+  ++ [EvCrash 0 0; EvRcChosen 5; EvRsRemoved 5; EvRsCopied 5; EvRcRestored 5; EvRcReplay 1 6 6].
+
+Lemma cycle_example :
+  exists s, run (cfg2 true) init_state trace_cycle = Ok s /\ engine s = Some [1; 2; 3; 4; 5]
+    /\ map sfirst (segs s) = [3; 5] /\ applied s = 5 /\ rs_last s = 6 /\ acked s = 6
+    /\ recover_state s 0 0 = Ok [1; 2; 3; 4; 5; 6].
+Proof. eexists. vm_compute. repeat split; reflexivity. Qed.
+
+(* two snapshot goroutines between "snap file written" and "WAL marker written" at the moment the purge of the
+   snap directory runs (KeepBackup = 2): the only snapshot the WAL records is evicted and, its first WAL segment
+   being purged already, the node cannot restart. The purge is timer driven in the code (start + every 10 min),
+   so this needs two stalled goroutines at a purge tick; the theorems below assume at most one goroutine in
+   that window. *)
+Definition trace_two_windows : list event :=
+  ev_write 1 0 true false ++ ev_write 2 0 false true ++ ev_write 3 0 false false ++ ev_write 4 0 false true
+  ++ ev_write_snap 5 0 false false ++ ev_sn_to_file 5 ++ ev_sn_rest 5
+  ++ [EvPgBefore 3; EvPgAfter 3]
+  ++ ev_write_snap 6 5 false false ++ ev_sn_to_file 6
+  ++ ev_write_snap 7 6 false false ++ ev_sn_to_file 7
+  ++ [EvPgBefore 4; EvPgAfter 4].
+
+Lemma two_windows_refuted :
+  exists s, run (cfg2 true) init_state trace_two_windows = Ok s
+    /\ sns s = [(7, SnFile); (6, SnFile)] /\ acked s = 7
+    /\ recover_state s 0 0 = Err E_FILE_NOT_FOUND.
+Proof. eexists. vm_compute. repeat split; reflexivity. Qed.
